@@ -55,6 +55,10 @@ def run(ctx):
     ps = P.PSet({"f.bin": L.gen_content(rng, "random", 64 * 4 + 9), "other.bin": L.gen_content(rng, "random", 70)}, 64, 3, tag="random S=64")
     ps.kind = "random"
     sets.append(ps)
+    for S_ in (4100,) + ((8196, 4096, 4092) if thorough else ()):
+        ps = P.PSet({"f.bin": L.gen_content(rng, "random", 3 * S_ + 17), "other.bin": L.gen_content(rng, "random", S_ + 1)}, S_, 2, g=1, tag="random S=%d" % S_)
+        ps.kind = "random"; ps.sparse_edits = True
+        sets.append(ps)
     created = P.create_all(ctx, vh, model, sets)
     cases = []
     for ps, line, i, m in created:
@@ -70,6 +74,9 @@ def run(ctx):
         if S == 64 and not thorough:
             positions = sorted(rng.sample(range(0, n + 1), 24))
             ks = [1, S - 1, S + 1]
+        if getattr(ps, "sparse_edits", False):
+            positions = [0, 1, S - 1, S + 5, n]
+            ks = [1, 3, S + 1]
         for pos in positions:
             for k in ks:
                 for kind in ("ins", "del"):
